@@ -10,7 +10,8 @@ spec = REG.spec
 const = REG.const
 ufunc = REG.ufunc
 ghostvar = REG.ghostvar
+fold = REG.fold
 
 # names used inside @spec bodies: they are never executed by CPython at load
 # time (the source is interpreted symbolically), so they need no definition.
-__all__ = ['contract', 'invariant', 'cls', 'record', 'enum', 'spec', 'const', 'ufunc', 'ghostvar']
+__all__ = ['contract', 'invariant', 'cls', 'record', 'enum', 'spec', 'const', 'ufunc', 'ghostvar', 'fold']
